@@ -40,9 +40,14 @@ STATUS OF THIS ROUND (be careful what is claimed):
   `replicas_agree_consul_families` (models of C03/C04, C10, C13, C07 wrapped in `CV/FsmFamilies.lean`),
   with `concrete_rejected_leaves_state`; `vip_family_counterexample` keeps the virtual-IP rendering of
   `RegisterRequestType` as the family that does NOT meet the obligation (the known finding).
-  STILL OPEN: the 19 message types of `Families.opaqueTypes` and everything outside `CV.Store` (ACL, config entries, intentions, CA, peering, …):
-  tied to the property only by the replica-diff harness (three real FSMs, two processes, different
-  clocks / map seeds / GOMAXPROCS / bind addresses) and by the facts.
+  ROUND 5 — `CV/Props/C01Keyed.lean` (second module of this property): ten of those 19 message types
+  (ACL policy / role / binding rule / auth method set + delete, federation state, CA leaf) are modelled
+  function by function in `CV/FsmKeyed.lean`, tied to the real FSM by this check's `keyedSection`, and
+  plugged in by `replicas_agree_consul_families_keyed` (27 of 36 concrete).
+  STILL OPEN: the 9 message types of `KeyedFamilies.opaqueTypes` (ACL bootstrap, six peering commands,
+  resource operations, manual virtual IPs): tied to the property only by the replica-diff harness (three
+  real FSMs, two processes, different clocks / map seeds / GOMAXPROCS / bind addresses; since round 5
+  every row of every table is compared — earlier rounds compared the first row only) and by the facts.
 -/
 import CV.Fsm
 import CV.FsmFacts
